@@ -54,5 +54,6 @@ a = s.index('### 0.6 ')
 b = s.index('\n---', a)
 sec = re.sub(r'^\| (C\d\d) \| (.*?) \| (.*) \|$', fix, s[a:b], flags=re.M)
 s = s[:a] + sec + s[b:]
+s = re.sub(r'`harness/` — \d+ harness entries', '`harness/` — %d harness entries' % len(hs), s)
 open(p, 'w').write(s)
 print('harnesses:', len(hs))
